@@ -1,1 +1,138 @@
-/- property theorems of C12 (only theorems + non-vacuity examples live here) -/
+import Got.Lemmas.CodecRoundtrip
+/-
+C12 — decoding arbitrary bytes with the iox readers is total, in-bounds and allocation-bounded.
+
+Model: `Got.Model.Codec` (`read1 buf pos op` = one call of ReadBool/ReadByte/ReadInt16/ReadInt32/ReadInt64/
+Read7BitEncodedInt/ReadBytes/ReadString/Read(n) on the stream `(buf, pos)`; outcome `ok v | err e | crash`, new position,
+ghost `alloc` = bytes passed to `make`). All statements quantify over EVERY byte list, every start position within it and
+every call. Only theorems and non-vacuity examples live in this file.
+-/
+open Got.Model.Codec Got.Lemmas.Codec
+
+/-- every call returns a value or one of the errors documented for it (never panics / hangs), and the cursor ends
+    between where it started and the end of the input -/
+theorem C12_total_inbounds (buf : List Byte) (pos : Nat) (op : Op) (h : pos ≤ buf.length) :
+    ((∃ v, (read1 buf pos op).out = .ok v) ∨ (∃ e, (read1 buf pos op).out = .err e ∧ op.mayFail e)) ∧
+      pos ≤ (read1 buf pos op).pos ∧ (read1 buf pos op).pos ≤ buf.length := by
+  have s := read1_spec buf pos op h
+  refine ⟨?_, s.good.mono, s.good.inb⟩
+  cases ho : (read1 buf pos op).out with
+  | ok v => exact Or.inl ⟨v, rfl⟩
+  | err e => exact Or.inr ⟨e, rfl, s.errs e ho⟩
+  | crash => exact absurd ho s.good.nocrash
+
+example : (read1 [0x80#8, 0x80#8] 0 .v7).out = .err .NotEnoughData ∧ (read1 [0x80#8, 0x80#8] 0 .v7).pos = 2 := by decide
+
+/-- a failed fixed-width read (bool, byte, int16, int32, int64) consumes nothing, fails with ErrNotEnoughData, and only
+    when fewer bytes than its width remain; a successful one consumes exactly its width -/
+theorem C12_fixed_fail_consumes_nothing (buf : List Byte) (pos : Nat) (op : Op) (w : Nat) (h : pos ≤ buf.length)
+    (hw : op.width = some w) :
+    (∀ e, (read1 buf pos op).out = .err e →
+        (read1 buf pos op).pos = pos ∧ e = .NotEnoughData ∧ buf.length < pos + w) ∧
+    (∀ v, (read1 buf pos op).out = .ok v → (read1 buf pos op).pos = pos + w) := by
+  have s := read1_spec buf pos op h
+  refine ⟨fun e he => ?_, fun v hv => s.fixedOk w v hw hv⟩
+  have hf := s.fixedFail w e hw he
+  have hm := s.errs e he
+  refine ⟨hf.1, ?_, hf.2⟩
+  cases op <;> simp [Op.width] at hw <;> exact hm
+
+example : (read1 [1#8, 2#8, 3#8] 0 .i32).out = .err .NotEnoughData ∧ (read1 [1#8, 2#8, 3#8] 0 .i32).pos = 0 := by decide
+
+/-- Read7BitEncodedInt consumes at most five bytes of any input (whatever the outcome) and allocates nothing -/
+theorem C12_7bit_le5 (buf : List Byte) (pos : Nat) :
+    (read7 buf pos).pos ≤ pos + 5 ∧ pos ≤ (read7 buf pos).pos ∧ (read7 buf pos).alloc = 0 := by
+  by_cases h : pos ≤ buf.length
+  · have b := read7_bound buf pos h
+    exact ⟨b.le, b.mono, b.alloc⟩
+  · rw [read7_beyond buf pos (by omega)]
+    exact ⟨by simp, by simp, rfl⟩
+
+example : (read7 [0xff#8, 0xff#8, 0xff#8, 0xff#8, 0xff#8, 0xff#8] 0).pos = 5 ∧
+    (read7 [0xff#8, 0xff#8, 0xff#8, 0xff#8, 0xff#8, 0xff#8] 0).out = .err .Bad7BitInt := by decide
+
+/-- an over-long 7-bit group is rejected, not silently truncated: four continuation bytes followed by a fifth byte
+    above 15 (a value that does not fit 32 bits) give ErrBad7BitInt after exactly five bytes -/
+theorem C12_7bit_rejects_overlong (buf : List Byte) (pos : Nat) (b0 b1 b2 b3 b4 : Byte) (tl : List Byte)
+    (hd : buf.drop pos = b0 :: b1 :: b2 :: b3 :: b4 :: tl)
+    (h0 : b0 > 127#8) (h1 : b1 > 127#8) (h2 : b2 > 127#8) (h3 : b3 > 127#8) (h4 : b4 > 15#8) :
+    read7 buf pos = ⟨.err .Bad7BitInt, pos + 5, 0⟩ :=
+  read7_rejects_fifth buf pos b0 b1 b2 b3 b4 tl hd (BitVec.not_le.mpr h0) (BitVec.not_le.mpr h1)
+    (BitVec.not_le.mpr h2) (BitVec.not_le.mpr h3) h4
+
+example : read7 [0x80#8, 0x80#8, 0x80#8, 0x80#8, 0x10#8] 0 = ⟨.err .Bad7BitInt, 5, 0⟩ := by decide
+
+/-- a successful ReadBytes (= ReadString) returns exactly the announced number of bytes, taken from the input right
+    behind the length prefix, and the cursor ends right behind them -/
+theorem C12_readbytes_exact (buf : List Byte) (pos : Nat) (data : List Byte) (h : pos ≤ buf.length)
+    (hok : (readBytes buf pos).out = .ok data) :
+    ∃ size p, read7 buf pos = ⟨.ok size, p, 0⟩ ∧ 0 ≤ size.toInt ∧
+      data.length = size.toInt.toNat ∧ data = (buf.drop p).take size.toInt.toNat ∧
+      (readBytes buf pos).pos = p + data.length ∧ p + data.length ≤ buf.length := by
+  rcases readBytes_char buf pos h with ⟨e, p, _, hr⟩ | ⟨size, p, h7, hc⟩
+  · rw [hr] at hok; simp at hok
+  · refine ⟨size, p, h7, ?_⟩
+    have hb := read7_bound buf pos h
+    rw [h7] at hb
+    have hp : p ≤ buf.length := hb.inb
+    cases hc with
+    | negative _ hr => rw [hr] at hok; simp at hok
+    | short _ _ _ hr => rw [hr] at hok; simp at hok
+    | empty hz hr =>
+      rw [hr] at hok ⊢
+      have hd : data = [] := by simpa using hok.symm
+      subst hd hz
+      exact ⟨by decide, by decide, by simp, by simp, by simpa using hp⟩
+    | full h0 hi hf hr =>
+      rw [hr] at hok ⊢
+      have hd : data = (buf.drop p).take size.toNat := by simpa using hok.symm
+      have hl : data.length = size.toNat := by
+        rw [hd, List.length_take, List.length_drop]; omega
+      have hn : size.toInt.toNat = size.toNat := by omega
+      rw [hn]
+      exact ⟨by omega, hl, hd, by simp [hl], by omega⟩
+
+/-- ReadString is ReadBytes followed by a cast that keeps the bytes: the same statement holds for it -/
+theorem C12_readstring_eq_readbytes (buf : List Byte) (pos : Nat) : readString buf pos = readBytes buf pos := rfl
+
+example : (readBytes [9#8, 2#8, 0xaa#8, 0xbb#8, 7#8] 1) = ⟨.ok [0xaa#8, 0xbb#8], 4, 2⟩ := by decide
+
+/-- whatever a length prefix announces, a call passes at most the number of remaining input bytes to `make`
+    (only ReadBytes/ReadString allocate at all) -/
+theorem C12_alloc_bounded (buf : List Byte) (pos : Nat) (op : Op) (h : pos ≤ buf.length) :
+    (read1 buf pos op).alloc ≤ buf.length - pos ∧
+      (op ≠ .bytes → op ≠ .str → (read1 buf pos op).alloc = 0) := by
+  have s := read1_spec buf pos op h
+  exact ⟨s.good.alloc, s.noAllocUnlessBytes⟩
+
+/-- the hostile prefix of the fixed defect: announces 2^27 bytes, four bytes of input -/
+example : read1 [0x80#8, 0x80#8, 0x80#8, 0x40#8] 0 .bytes = ⟨.err .NotEnoughData, 4, 0⟩ := by decide
+
+/-- the code before commit ca8102a passed the announced size to `make` first: 128 MiB for a 4-byte input -/
+theorem C12_old_counterexample :
+    (readBytesOld [0x80#8, 0x80#8, 0x80#8, 0x40#8] 0).alloc = 134217728 ∧
+      ¬ (readBytesOld [0x80#8, 0x80#8, 0x80#8, 0x40#8] 0).alloc ≤ [0x80#8, 0x80#8, 0x80#8, 0x40#8].length - 0 := by
+  decide
+
+/-- any sequence of read calls on any input keeps the invariant: every call returns, moves the cursor forward within
+    the input and allocates no more than the input that was left -/
+theorem C12_seq (buf : List Byte) (ops : List Op) (pos : Nat) (h : pos ≤ buf.length) :
+    SeqGood buf pos (readSeq buf pos ops) :=
+  readSeq_good buf ops pos h
+
+/-- … in particular for every single result in the sequence, relative to the start of the whole sequence -/
+theorem C12_seq_all (buf : List Byte) (ops : List Op) (pos : Nat) (h : pos ≤ buf.length) :
+    ∀ r ∈ readSeq buf pos ops, r.out ≠ .crash ∧ pos ≤ r.pos ∧ r.pos ≤ buf.length ∧ r.alloc ≤ buf.length - pos := by
+  induction ops generalizing pos with
+  | nil => intro r hr; simp [readSeq] at hr
+  | cons o os ih =>
+    intro r hr
+    have g := (read1_spec buf pos o h).good
+    simp only [readSeq, List.mem_cons] at hr
+    rcases hr with hr | hr
+    · subst hr; exact ⟨g.nocrash, g.mono, g.inb, g.alloc⟩
+    · have := ih _ g.inb r hr
+      have hm := g.mono
+      exact ⟨this.1, by omega, this.2.2.1, by omega⟩
+
+example : (readSeq [2#8, 0x61#8, 0x62#8, 0xff#8] 0 [.str, .i16, .byte, .byte]).map (·.pos) = [3, 3, 4, 4] := by decide
